@@ -154,30 +154,30 @@ def _out_array(box, name, span, is_log):
     return a, key
 
 
-def _check(c, model, input_db, span, kwargs, result):
+def prepare(c, model, input_db, span, kwargs, tag="kalman_filter"):
+    """certificates + joint distribution; returns dict or None (inconclusive recorded under `tag`)"""
     if model.num_variants != 1:
-        c.inconc("kalman_filter:multi-variant-call-not-decided")
-        return
+        c.inconc(f"{tag}:multi-variant-call-not-decided")
+        return None
     method = kwargs.get("diffuse_method", "fixed_unknown")
     if kwargs.get("prepend_initial") or kwargs.get("append_terminal") or kwargs.get("initials_from_data"):
-        c.inconc("kalman_filter:option-not-decided")
-        return
-    out, info = result if (isinstance(result, tuple) and kwargs.get("return_info")) else (result, None)
+        c.inconc(f"{tag}:option-not-decided")
+        return None
     J = build_joint(model, input_db, span, kwargs)
     if J["ant_present"]:
-        c.inconc("kalman_filter:anticipated-shock-means-not-decided")
-        return
+        c.inconc(f"{tag}:anticipated-shock-means-not-decided")
+        return None
     T, P, K, Z, H, D = J["T"], J["P"], J["K"], J["Z"], J["H"], J["D"]
     n = T.shape[0]
     N = J["N"]
     mod = np.abs(np.linalg.eigvals(T))
     n_unit = int(np.sum(np.abs(mod - 1) <= 1e-8))
     if np.any((np.abs(mod - 1) < 1e-3) & ~(np.abs(mod - 1) <= 1e-8)) or np.any(mod > 1 + 1e-8):
-        c.inconc("kalman_filter:modulus-too-close-to-one")
-        return
+        c.inconc(f"{tag}:modulus-too-close-to-one")
+        return None
     if n_unit and method not in ("fixed_unknown", "fixed_zero"):
-        c.inconc("kalman_filter:unit-root-model-with-approx_diffuse(not decided)")
-        return
+        c.inconc(f"{tag}:unit-root-model-with-approx_diffuse(not decided)")
+        return None
     # degenerate square solution (rank condition) -> outside the quantifier
     try:
         ev = np.array(model.get_eigenvalues(), dtype=complex)
@@ -185,8 +185,8 @@ def _check(c, model, input_db, span, kwargs, result):
         evT = np.sort(mod)
         k_ = min(len(keep), len(evT))
         if k_ and np.max(np.abs(keep[-k_:] - evT[-k_:])) > 1e-6:
-            c.inconc("kalman_filter:square-solution-degenerate(rank condition fails)")
-            return
+            c.inconc(f"{tag}:square-solution-degenerate(rank condition fails)")
+            return None
     except Exception:
         pass
     if not n_unit:
@@ -195,8 +195,8 @@ def _check(c, model, input_db, span, kwargs, result):
         jt.set_observations(J["Y"])
         condS = jt.cond_number()
         if not np.isfinite(condS) or condS > 1e10:
-            c.inconc("kalman_filter:observation-covariance-singular-or-ill-conditioned")
-            return
+            c.inconc(f"{tag}:observation-covariance-singular-or-ill-conditioned")
+            return None
     else:
         # unit roots: work on the block-triangular state alpha (xi = Ua alpha) whose first k elements are the unit-root block;
         # alpha_0 = [delta; alpha_s0], delta a fixed unknown (fixed_unknown: GLS estimate from the whole sample) or zero (fixed_zero)
@@ -206,8 +206,8 @@ def _check(c, model, input_db, span, kwargs, result):
             Ka = np.zeros_like(Ka)
         ku = int(sol.num_unit_roots)
         if ku != n_unit or np.max(np.abs(Ta[ku:, :ku]), initial=0) > 1e-10:
-            c.inconc("kalman_filter:triangular-solution-not-in-expected-form")
-            return
+            c.inconc(f"{tag}:triangular-solution-not-in-expected-form")
+            return None
         Ts = Ta[ku:, ku:]
         mu_s = np.linalg.solve(np.eye(Ts.shape[0]) - Ts, Ka[ku:])
         Qs = Pa[ku:] @ np.diag(J["su_init"] ** 2) @ Pa[ku:].T
@@ -220,16 +220,16 @@ def _check(c, model, input_db, span, kwargs, result):
         jt.set_observations(J["Y"])
         condS = jt.cond_number()
         if not np.isfinite(condS) or condS > 1e10:
-            c.inconc("kalman_filter:observation-covariance-singular-or-ill-conditioned")
-            return
+            c.inconc(f"{tag}:observation-covariance-singular-or-ill-conditioned")
+            return None
         if method == "fixed_unknown" and len(jt.y_obs):
             X = jt.A_obs[:, :ku]
             SiX = np.linalg.solve(jt.S_obs, X)
             XtSiX = X.T @ SiX
             sv = np.linalg.svd(XtSiX, compute_uv=False)
-            if sv[-1] <= 1e-9 * sv[0]:
-                c.inconc("kalman_filter:unknown-initial-condition-not-identified")
-                return
+            if sv[-1] <= 1e-8 * max(1.0, sv[0]):
+                c.inconc(f"{tag}:unknown-initial-condition-not-identified")
+                return None
             delta = np.linalg.solve(XtSiX, SiX.T @ (jt.y_obs - jt.m_obs))
             jt.m_s[:ku] = delta
             jt.m_obs = jt.A_obs @ jt.m_s + jt.c_obs
@@ -237,6 +237,15 @@ def _check(c, model, input_db, span, kwargs, result):
         # map alpha -> xi
         jt.A_xi = [Ua @ A for A in jt.A_xi]
         jt.c_xi = [Ua @ cc_ for cc_ in jt.c_xi]
+    return {"jt": jt, "J": J, "n_unit": n_unit, "condS": condS, "method": method, "T": T, "n": n, "N": N}
+
+
+def _check(c, model, input_db, span, kwargs, result):
+    out, info = result if (isinstance(result, tuple) and kwargs.get("return_info")) else (result, None)
+    pr = prepare(c, model, input_db, span, kwargs)
+    if pr is None:
+        return
+    jt, J, n_unit, condS, method, T, n, N = (pr[k] for k in ("jt", "J", "n_unit", "condS", "method", "T", "n", "N"))
     case = c.case
     tolmul = max(1.0, condS / 1e6)
     rescale = bool(kwargs.get("rescale_variance", False))
